@@ -92,6 +92,17 @@ def addDelegation (ds : Delegations D) (d : Delegation D) : Except Err (Delegati
   else if hasId ds.items d.id then .error .delegation
   else .ok { ds with items := ds.items ++ [d] }
 
+/-- `Delegations.add_delegations(*args)`: ONE call with its whole argument list.  The loop checks and stores
+argument by argument, so an argument is checked against the container *and* the earlier arguments of the
+same call; when it raises, the earlier arguments of the rejected call stay in the container.  Returns the
+container afterwards and the exception, if any. -/
+def addDelegations (ds : Delegations D) : List (Delegation D) → Delegations D × Option Err
+  | [] => (ds, none)
+  | d :: rest =>
+    match addDelegation ds d with
+    | .error e => (ds, some e)
+    | .ok ds' => addDelegations ds' rest
+
 def detailsDict (ops : DetailOps D) (d : Delegation D) : Option JVal :=
   match d.details with
   | none => none
@@ -182,6 +193,13 @@ def mkPool (ty : DType) (pid : String) (deleg on_ : Option String) (for_ : List 
   { ty := ty, pid := pid, deleg := deleg, on_ := on_,
     for_ := (for_.foldl addSet []).filter (fun n => some n ≠ on_), details := none }
 
+/-- `Pool.set_defined_for(list)`: replaces the set (asserts a non-empty list; does not remove the defining node) -/
+def setDefinedFor (p : Pool D) (l : List String) : Except Err (Pool D) :=
+  if l = [] then .error .assertion else .ok { p with for_ := l.foldl addSet [] }
+
+/-- `Pool.add_defined_for(str)` / `add_defined_for(list)` -/
+def addDefinedFor (p : Pool D) (l : List String) : Pool D := { p with for_ := l.foldl addSet p.for_ }
+
 structure Pools (D : Type) where
   ty : DType
   /-- `pool_by_id` in insertion order (key = `pid`) -/
@@ -222,6 +240,20 @@ def indexStep (idx : List (String × List (Pool D))) (p : Pool D) : Except Err (
   match p.deleg with
   | none => .error .pool
   | some k => pure (indexAdd k p idx)
+
+/-- the loop of `build_index_by_delegation_id` with what it leaves behind when `validate_pool` raises -/
+def indexGo (idx : List (String × List (Pool D))) : List (Pool D) → List (String × List (Pool D)) × Option Err
+  | [] => (idx, none)
+  | p :: l =>
+    match indexStep idx p with
+    | .error e => (idx, some e)
+    | .ok idx' => indexGo idx' l
+
+/-- `build_index_by_delegation_id` with the state it leaves behind: `pools_by_delegation` is reset to `{}` first
+and filled pool by pool, so a failing `validate_pool` leaves the index built for the pools before it -/
+def buildIndexS (ps : Pools D) : Pools D × Option Err :=
+  let r := indexGo [] ps.byId
+  ({ ps with index := some r.1 }, r.2)
 
 /-- `Pools.build_index_by_delegation_id` -/
 def buildIndex (ps : Pools D) : Except Err (Pools D) := do
